@@ -35,7 +35,7 @@ def _classpath():
 
 def run(module, cfg_text, workers=16, simulate=None, depth=None, seed=None,
         timeout=3600, env_extra=None, coverage=False, tag=None, deadlock=False,
-        dfs=False, extra_modules=(), keep_out=True, heap='8g'):
+        dfs=False, extra_modules=(), keep_out=True, heap='8g', extra_args=()):
     """Run TLC on specs/<module>.tla with the given cfg text.
 
     A scratch directory receives a copy of every spec file (TLC writes its
@@ -64,6 +64,7 @@ def run(module, cfg_text, workers=16, simulate=None, depth=None, seed=None,
             cmd += ['-depth', str(depth)]
         if seed is not None:
             cmd += ['-seed', str(seed)]
+        cmd += list(extra_args)
         cmd += [module + '.tla']
         env = dict(os.environ)
         jopts = '-Xmx%s -XX:+UseParallelGC' % heap
